@@ -14,7 +14,8 @@ PROP = Property(
     "connection) pair of the SAME zipped receiver tuple; receivers come 1:1 from zip(offers, extract_response_peers("
     "min(offers, max_offers), sender)); neither offers nor answers are handled for a stopped announce; an answer is "
     "forwarded only when swap_remove of (answerer id, offer id) from the addressed peer's expectations succeeds, "
-    "to that peer's own pair; otherwise an error goes to the answerer or nothing happens.",
+    "to that peer's own pair; otherwise an error goes to the answerer or nothing happens; the number of receivers "
+    "handed to the zip is exactly min(limit, other peers) by the selection function's own obligations.",
     ["aqfacts MIR extraction", "indexmap semantics", "C08 (bookkeeping) and C10 (expiry of expectations)"],
     ["multi-connection offer/answer histories are not decided"],
 )
@@ -185,3 +186,22 @@ def answers(fx):
         k = "answers#%s%s" % (w[0][0], "" if not w[1] else ("#consumed" if w[1][0][1] else "#not_expected"))
         yield ob("R-C09-4", k, w in rows, b, None, "row %s present: %s" % (w[2][:40], w in rows), {"row": str(w)[:300]})
     yield ob("R-C09-4", "answers#table_complete", rows == want, b, None, "handle_answer rows: %d (expected exactly 3)" % len(rows), {"rows": sorted(str(r)[:200] for r in rows)})
+
+
+@PROP.rule("R-C09-5", floor=6, doc="count: exactly min(offers sent, max_offers, other peers) receivers - the selection function never returns the sender, never more than its limit, and everyone when there are no more others than that")
+def count(fx):
+    # The receivers of handle_offers are the result of the WebTorrent extract_response_peers (R-C09-2 pins the call and
+    # its limit argument).  "min(offers, max_offers, other peers) are forwarded" therefore needs that function to return
+    # exactly min(limit, others) distinct non-sender peers: these are its obligations from C02, decided here as well so
+    # that a change to the selection is reported against the offer relay it breaks.
+    from rules import C02
+    n = 0
+    for gen in (C02.clamps, C02.selection, C02.exclusion):
+        for o in gen(fx):
+            if "#ws" in o.key:
+                n += 1
+                o2 = ob("R-C09-5", "count#" + o.key, o.ok, None, None, o.detail, o.sample, o.trivial)
+                o2.where = o.where
+                yield o2
+    if n == 0:
+        yield ob("R-C09-5", "count#ws#anchors", False, None, None, "no WebTorrent selection obligations found")
